@@ -51,6 +51,9 @@ def base_population(item, params):
     return popgen.relabel(df, pm, hm).iloc[rng.permutation(len(df))].reset_index(drop=True), rng
 
 
+NARROW_TARGETS = ["eink_st_y_sn", "sozialv_beitr_arbeitnehmer_m"]
+
+
 def enumerate_faults(df, roots, computed=None, functions=None):
     """All single faults: list of (class, position label, mutation function)."""
     from _gettsim.config import TYPES_INPUT_VARIABLES
@@ -74,6 +77,17 @@ def enumerate_faults(df, roots, computed=None, functions=None):
         j = (i + 1) % n
         F.append(("p_id_duplicate", f"row{i}", setval("p_id", i, pids[j])))
         F.append(("p_id_nan", f"row{i}", setval("p_id", i, np.nan, astype=float)))
+    # duplicates far apart, between persons nobody points to (no second fault), judged on targets whose computation never
+    # looks persons up by identifier - only the up-front check can reject them
+    referenced = set()
+    for fk in FOREIGN_KEYS:
+        if fk in df.columns:
+            referenced |= set(df[fk].tolist())
+    free_rows = [i for i in range(n) if pids[i] not in referenced]
+    pairs = [(i, j) for i in free_rows for j in free_rows if j - i >= 2][:: max(1, len(free_rows))]
+    for i, j in pairs[:8] + ([(free_rows[0], free_rows[-1])] if len(free_rows) >= 2 and free_rows[-1] - free_rows[0] >= 2 else []):
+        F.append(("p_id_duplicate_non_adjacent", f"row{i}=row{j}", setval("p_id", i, pids[j]), NARROW_TARGETS))
+        F.append(("p_id_duplicate_non_adjacent", f"row{j}=row{i}", setval("p_id", j, pids[i]), NARROW_TARGETS))
     for fk in FOREIGN_KEYS:
         for i in range(n):
             F.append((f"pointer_to_missing:{fk}", f"row{i}", setval(fk, i, missing_id)))
@@ -165,7 +179,7 @@ def _faults(item):
     if item["tier"] == "quick":
         # every class and column, a deterministic third of the row positions
         mine = [f for j, f in enumerate(mine) if (not f[1].split(":")[-1].startswith("row")) or j % 3 == 0 or "pointer" in f[0] or "p_id" in f[0] or f[0].startswith("hh_level_varies:") or "spouses" in f[0] or f[0].startswith("overriding")]
-    for cls, pos, mut in mine:
+    for cls, pos, mut, *rest in mine:
         try:
             data = mut(df)
         except Exception:  # noqa: BLE001
@@ -173,7 +187,7 @@ def _faults(item):
         res["injected"] += 1
         res["classes"][cls.split(":")[0]] = res["classes"].get(cls.split(":")[0], 0) + 1
         try:
-            out, _ = _call(env, data, params, functions)
+            out, _ = _call(env, data, params, functions, rest[0] if rest else None)
         except Exception as e:  # noqa: BLE001
             res["rejected"] += 1
             k = f"{cls.split(':')[0]}->{type(e).__name__}"
